@@ -25,7 +25,7 @@ def obligations(tier, ctx):
                     continue
                 obs.append(Ob(name="chunk_" + "_".join(kt) + ("_crlf" if crlf else "") + f"_d{d}", params=[("i", "int")],
                               pre=["0 <= i", f"i + {d} <= H.text_len({kt!r}, {crlf})"], call=f"H.chunking({kt!r}, {crlf}, i, {d})",
-                              backend="P", timeout=300, family="(a) event-stream chunking: every cut position"))
+                              backend="P", timeout=300, family="(a) event-stream chunking: every byte cut position (also inside multi-byte characters)"))
     for via in (False, True):
         tag = "client" if via else "transport"
         obs.append(Ob(name=f"establish_refused_{tag}", params=[("n", "bool")], pre=[], call=f"H.establish(0, 200, 0, n, {via})", backend="P", timeout=120, family="(b) live-or-raise"))
